@@ -148,6 +148,12 @@ def check(run):
     for lab, T in structured_transforms(rng, sum(s_.size for s_ in specs2)):
         one_case(run, specs2, points_for(rng, specs2, 3), (1, 0, 1), "general", T)
         run.count("transform " + lab)
+    from checks.common import custom_order_family
+    for k, (o, dt) in enumerate([((2, 0, 0), "direct"), ((0, 2, 1), "direct"), ((2, 1, 2), "direct"), ((1, 1, 0), "direct"), ((0, 0, 2), "direct"),
+                                 ((3, 0, 1), "general"), ((0, 0, 0), "general"), ((2, 2, 2), "direct")]):
+        sp_ = custom_order_family(rng, (1, 2, 3) if k % 2 else (2, 1), two=(k % 3 == 0))
+        one_case(run, sp_, points_for(rng, sp_, 3), o, dt, via_class=(k % 4 == 3))
+        run.count("declared (non-default) Cartesian component order")
     batch_independence(run)
 
 
